@@ -143,10 +143,16 @@ where
         record: Arc<Record<E>>,
         garbages: &mut Vec<(Event, Arc<Record<E>>)>,
         notifiers: &mut Vec<Notifier<Option<RawCacheEntry<E, S, I>>>>,
+        inflight_key: &mut Option<E::Key>,
         inflight: Option<usize>,
     ) -> bool {
-        match self.inflights.lock().take(record.hash(), record.key(), inflight) {
-            Some(taken) => *notifiers = taken,
+        let taken = self.inflights.lock().take(record.hash(), record.key(), inflight);
+        match taken {
+            Some((taken, key)) => {
+                *notifiers = taken;
+                // Dropped by the caller after the shard lock is released.
+                *inflight_key = Some(key);
+            }
             // The fetch that produced this record no longer owns the in-flight entry of the key: an explicit
             // insert (or a newer fetch) has superseded it, so its result must not be published.
             None if inflight.is_some() => return false,
@@ -599,10 +605,19 @@ where
     fn insert_inner(&self, record: Arc<Record<E>>, source: Source, inflight: Option<usize>) -> RawCacheEntry<E, S, I> {
         let mut garbages = vec![];
         let mut notifiers = vec![];
+        let mut inflight_key = None;
 
-        let inserted = self.inner.shards[self.shard(record.hash())]
-            .write()
-            .with(|mut shard| shard.emplace(record.clone(), &mut garbages, &mut notifiers, inflight));
+        let inserted = self.inner.shards[self.shard(record.hash())].write().with(|mut shard| {
+            shard.emplace(
+                record.clone(),
+                &mut garbages,
+                &mut notifiers,
+                &mut inflight_key,
+                inflight,
+            )
+        });
+        // Deallocate the key copy of the taken in-flight entry out of the lock critical section.
+        drop(inflight_key);
         if !inserted {
             // Superseded fetch result: hand back a detached (outdated) entry, nothing was published.
             record.inc_refs(1);
@@ -1405,7 +1420,7 @@ where
                 let required_fetch = required_fetch_builder(ctx);
                 Try::SetStateAndContinue(RawFetchState::FetchRequired { required_fetch })
             }
-            FetchOrTake::Notifiers(notifiers) => Try::SetStateAndContinue(RawFetchState::Notify {
+            FetchOrTake::Notifiers(notifiers, _key) => Try::SetStateAndContinue(RawFetchState::Notify {
                 res: Some(res_no_fetch),
                 notifiers,
             }),
@@ -1438,8 +1453,9 @@ where
         key: &E::Key,
         inflights: &Arc<Mutex<InflightManager<E, S, I>>>,
     ) -> Try<E, S, I, C> {
-        let notifiers = match inflights.lock().take(hash, key, Some(id)) {
-            Some(notifiers) => notifiers,
+        let taken = inflights.lock().take(hash, key, Some(id));
+        let (notifiers, _key) = match taken {
+            Some(taken) => taken,
             None => {
                 return Try::Ready;
             }
@@ -1484,11 +1500,11 @@ where
             RawFetchState::Notify { .. } | RawFetchState::Ready => return,
             RawFetchState::Init { .. } | RawFetchState::FetchOptional { .. } | RawFetchState::FetchRequired { .. } => {}
         }
-        if let Some(notifiers) = this
+        let taken = this
             .inflights
             .lock()
-            .take(*this.hash, this.key.as_ref().unwrap(), Some(*this.id))
-        {
+            .take(*this.hash, this.key.as_ref().unwrap(), Some(*this.id));
+        if let Some((notifiers, _key)) = taken {
             for notifier in notifiers {
                 let _ =
                     notifier
